@@ -179,6 +179,13 @@ LiveAfter(tr, i) == IF i = 0 THEN {} ELSE
       st == tr[i].st
   IN ((IF st.k = "sub" THEN prev \cup {st.a} ELSE IF st.k = "unsub" THEN prev \ {st.a} ELSE prev) \ endedHere)
 ItemsOf(tr, u, upto) == LET f == SelectSeq(FlatFrom(SubSeq(tr, 1, upto), 1), LAMBDA x : IsCb(x, u) /\ x.e.k = "n") IN [i \in 1..Len(f) |-> f[i].e.v]
+\* what a synchronous source hands its first subscription: from_iter = the items and complete; cold = its first script up to its terminal
+SyncOutput(src) ==
+  IF src.op = "from_iter" THEN [k \in 1..(Len(src.items) + 1) |-> IF k <= Len(src.items) THEN <<"n", src.items[k]>> ELSE <<"c", 0>>]
+  ELSE LET sc == src.scripts[1]
+           RECURSIVE Cut(_)
+           Cut(k) == IF k > Len(sc) THEN <<>> ELSE IF sc[k].k \in {"e", "c"} THEN << <<sc[k].k, sc[k].v>> >> ELSE << <<sc[k].k, sc[k].v>> >> \o Cut(k + 1)
+       IN Cut(1)
 C13verdict(tr, root, c) ==
   IF ~(root.op = "conn" /\ Len(c.conn) >= 1 /\ ~HasReact(c) /\ AllFinOk(tr)) THEN "na"
   ELSE LET kind == c.conn[1].kind
@@ -202,6 +209,15 @@ C13verdict(tr, root, c) ==
                    /\ (kind = "publish" => \A i \in 1..n : tr[i].st.k = "connect" => SubsIn(tr, i, id) = 1)
                    \* releasing stops the source: from then on every attempt of the source sees is_subscribed() = false
                    /\ (\A i \in 1..n : released(i) => \A q \in 1..Len(f) : (f[q].i > i /\ IsAttempt(f[q]) /\ f[q].e.u = id /\ f[q].e.v = 1) => \E k \in (i + 1)..f[q].i : SubsIn(tr, k, id) > 0))
+               \* what the shared source emits reaches every subscriber that is present: a hot source's item that was emitted while
+               \* connected (its attempt saw is_subscribed() = true) is delivered, as is, to each of them (publish / ref_count) ...
+               /\ (kind \in {"publish", "ref_count"} /\ src.op = "probe" =>
+                      \A i \in 1..n : (tr[i].st.k = "emit" /\ tr[i].st.a = id /\ tr[i].st.e = "n" /\ \E j \in 1..Len(tr[i].obs) : (tr[i].obs[j].o = "probe" /\ tr[i].obs[j].k = "issub" /\ tr[i].obs[j].v = 1)) =>
+                         \A u \in LiveAfter(tr, i - 1) : PerSink(tr[i].obs, u) = << <<"n", tr[i].st.v>> >>)
+               \* ... and the subscriber whose arrival connects ref_count to a synchronous source gets that source's whole output
+               /\ (kind = "ref_count" /\ src.op \in {"from_iter", "cold"} =>
+                      \A i \in 1..n : (tr[i].st.k = "sub" /\ LiveAfter(tr, i - 1) = {} /\ ~\E j \in 1..(i - 1) : tr[j].st.k = "sub") =>
+                         PerSink(tr[i].obs, tr[i].st.a) = SyncOutput(src))
                \* every subscriber present sees the same items (publish / ref_count); replay: the whole sequence from the beginning, each once
                /\ (\A i \in 1..n : (tr[i].st.k = "emit" /\ tr[i].st.e = "n") =>
                       \A u \in LiveAfter(tr, i - 1) : \A w \in LiveAfter(tr, i - 1) : PerSink(tr[i].obs, u) = PerSink(tr[i].obs, w))
